@@ -271,6 +271,7 @@ fn gr_step(pre: u8, kin: u8) -> (K, K) {
         ),
         _ => (0, 0),
     };
+    let pre_from_llgr = matches!(&st, Inner::PeerReconnected { from_llgr: true, .. });
     let stale = any_mask();
     kani::assume(stale & !pre_t == 0);
     let mut restart_armed: bool = kani::any();
@@ -352,7 +353,17 @@ fn gr_step(pre: u8, kin: u8) -> (K, K) {
     if s.has_start_llgr {
         llgr_armed |= s.start_llgr;
     }
-    stale_after &= !(s.del_gr | s.del_llgr);
+    // DeleteStaleRoutes purges GR-stale routes, DeleteLlgrStaleRoutes purges LLGR-stale ones (the
+    // driver maps them to drop_stale / drop_llgr_stale, which test different source flags): in
+    // the LLGR phases (LlgrStaling, PeerReconnected{from_llgr}) only the LLGR purge removes them.
+    let llgr_phase = k0 == K::Llgr || (k0 == K::Reconnected && pre_from_llgr);
+    if kin != 0 {
+        if llgr_phase {
+            stale_after &= !s.del_llgr;
+        } else {
+            stale_after &= !s.del_gr;
+        }
+    }
 
     // (O1) no stale family without a covering timer / awaited EOR
     let leak = stale_after & !post_t;
@@ -389,6 +400,10 @@ fn gr_step(pre: u8, kin: u8) -> (K, K) {
     // (O5) End-of-RIB / timer expiry for a covered family removes it from coverage
     if kin == 2 && k0 == K::Reconnected {
         assert!(post_t & fbit == 0);
+        // the phase (GR vs LLGR stale routes) does not change while End-of-RIBs are still awaited
+        if let Inner::PeerReconnected { from_llgr, .. } = &gs.state {
+            assert!(*from_llgr == pre_from_llgr);
+        }
     }
     if kin == 4 && k0 == K::Llgr {
         assert!(post_t & fbit == 0 && s.del_llgr & fbit != 0);
